@@ -20,7 +20,7 @@ EQB = "obs_eqb"
 SHARD = 2500
 RULE = ("exhaustive: all strings up to length n over {a,b,CR,LF} x width lists (1..3 fields of width 1..3, "
         "sampled per tier) x the five line-delimiter settings; all strings up to length 3 (4) over {a, LF, c} containing c for each of 12 special characters c (byte order mark, NUL, U+2028, NEL, Ctrl-Z, tab, blank, FF, VT, FS, a non-BMP character, U+FFFE); plus random longer well-formed files with one "
-        "character deleted/inserted/replaced. A sixth of the cases (and all with special characters) are also stored in a file and read by path: same result required. A case is non-trivial when the text is non-empty; distinct = distinct "
+        "character deleted/inserted/replaced. A fifth of the cases run right after another fixed-width read was abandoned (one row taken, then dropped) and while two further reads are suspended half way. A sixth of the cases (and all with special characters) are also stored in a file and read by path: same result required. A case is non-trivial when the text is non-empty; distinct = distinct "
         "(setting, widths, text).")
 EXHAUSTIVE = {"quick": False, "thorough": False}
 TRUSTED = ["io.StringIO(newline='').read(n) returns the next n characters unchanged (modelled by firstn/skipn)"]
@@ -66,10 +66,37 @@ def impl_path(ldn, widths, text):
         os.remove(path)
 
 
+def disturb():
+    """reads that are abandoned half way, and two reads advanced in turns: what another read left behind (a character
+    read ahead after a bare CR, a half consumed record) must not show up in the read under observation"""
+    g = rowio.fixed_rows(io.StringIO("ab\rcd\ref", newline=""), "utf-8", [("x", 2)], "any")
+    next(g)
+    del g
+    g1 = rowio.fixed_rows(io.StringIO("ab\rcd\ref\r", newline=""), "utf-8", [("x", 1), ("y", 1)], "any")
+    g2 = rowio.fixed_rows(io.StringIO("1\r\n2\n3", newline=""), "utf-8", [("x", 1)], "any")
+    next(g1), next(g2), next(g1)
+    return g1, g2
+
+
 def make_case(inp):
     ldn, widths, text = inp
+    crc = zlib.crc32(repr(inp).encode("utf-8"))
+    disturbed = None
+    try:
+        pending = disturb() if crc % 5 == 0 else None
+    except Exception as e:  # noqa - the other reads are well-formed: they must not fail either
+        pending, disturbed = None, "a well-formed read running beside others failed: %s: %s" % (type(e).__name__, str(e)[:80])
     obs = impl(ldn, widths, text)
-    if zlib.crc32(repr(inp).encode("utf-8")) % 6 == 0 or any(c in text for c in SPECIALS):
+    if pending is not None:
+        try:
+            rest = [[list(r) for r in g] for g in pending]
+            if rest != [[["e", "f"]], [["2"], ["3"]]]:
+                disturbed = "reads suspended while another read ran continued with %r" % (rest,)
+        except Exception as e:  # noqa
+            disturbed = "a well-formed read suspended while another read ran failed: %s: %s" % (type(e).__name__, str(e)[:80])
+    if disturbed:
+        obs = obs + [{"by_path": disturbed}]
+    if len(obs) == 2 and (crc % 6 == 0 or any(c in text for c in SPECIALS)):
         by_path = impl_path(ldn, widths, text)
         if by_path != obs:
             obs = obs + [{"by_path": by_path}]
@@ -117,6 +144,8 @@ def is_greedy(rows, delims):
 def direct_oracle(inp, obs):
     ldn, widths, text = inp
     if len(obs) == 3:
+        if isinstance(obs[2]["by_path"], str):
+            return obs[2]["by_path"]
         return "the same characters read from a file by path give %r but from a stream %r" % (obs[2]["by_path"], obs[:2])
     rows, ok = obs
     if ok not in (True, False):
